@@ -32,9 +32,14 @@ func (f *File) Sync() error {
 	if err := f.File.Sync(); err != nil {
 		return err
 	}
-	new := atomic.SwapUint32(&f.new, 1)
-	if new == 0 {
-		return syncDir(f.dir)
+	if atomic.LoadUint32(&f.new) == 0 {
+		// Only remember that the directory entry is durable once the directory
+		// fsync has actually succeeded, otherwise a retry after a failure would
+		// skip it and acknowledge data in a file a crash could still forget.
+		if err := syncDir(f.dir); err != nil {
+			return err
+		}
+		atomic.StoreUint32(&f.new, 1)
 	}
 	return nil
 }
